@@ -139,6 +139,71 @@ theorem frame_stream_split_exact (max : Nat) (ps : List (List Nat))
 /-- v2 header: an empty payload is an error, otherwise flags bit 0 and the data are split off -/
 theorem v2_split_spec (f : Nat) (data : List Nat) : v2Split (f :: data) = .ok (f % 2, data) := rfl
 
+/-- **v2 round trip with compression negotiated**: whatever the compressor returns, the bytes
+    handed to the deserialiser are the serialised message — provided `decompress` inverts
+    `compress` (lz4, opaque) and the flag of the configured method is 0 (None, where
+    `compress` is the identity) or 1 (LZ4). The flags byte says "compressed" exactly when the
+    compressed bytes travel. -/
+theorem v2_roundtrip (decompress : List Nat → Option (List Nat)) (max : Nat) (enabled : Bool)
+    (minSize methodFlag : Nat) (ser comp : List Nat)
+    (hflag : (methodFlag = 0 ∧ comp = ser) ∨ (methodFlag = 1 ∧ decompress comp = some ser))
+    (hmax : ser.length ≤ max) :
+    v2Decode decompress max
+        ((v2Choose enabled minSize methodFlag ser comp).1 :: (v2Choose enabled minSize methodFlag ser comp).2)
+      = .ok ser := by
+  have hm : ¬ ser.length > max := by omega
+  unfold v2Choose
+  by_cases h1 : enabled = true ∧ ser.length ≥ minSize
+  · rw [if_pos h1]
+    by_cases h2 : comp.length < ser.length
+    · rw [if_pos h2]
+      rcases hflag with ⟨hf, hc⟩ | ⟨hf, hd⟩
+      · subst hc; omega
+      · subst hf; simp [v2Decode, hd, hm]
+    · rw [if_neg h2]; simp [v2Decode, hm]
+  · rw [if_neg h1]; simp [v2Decode, hm]
+
+/-- **encode_v2 / decode_payload_v2 are inverse for every limit**: whenever the encoder emits a
+    frame, its content decodes (same `max`) to the serialised message. -/
+theorem v2_encode_then_decode (decompress : List Nat → Option (List Nat)) (max : Nat)
+    (enabled : Bool) (minSize methodFlag : Nat) (ser comp f : List Nat)
+    (hflag : (methodFlag = 0 ∧ comp = ser) ∨ (methodFlag = 1 ∧ decompress comp = some ser))
+    (h : frameEncodeV2c max enabled minSize methodFlag ser comp = .ok f) :
+    ∃ content, f = be32 content.length ++ content ∧ v2Decode decompress max content = .ok ser := by
+  unfold frameEncodeV2c at h
+  by_cases hbig : ser.length > max
+  · rw [if_pos hbig] at h; cases h
+  · rw [if_neg hbig] at h
+    simp only [] at h
+    unfold frameEncodeV2 at h
+    split at h
+    · cases h
+    · split at h
+      · cases h
+      · injection h with h
+        refine ⟨(v2Choose enabled minSize methodFlag ser comp).1 ::
+                (v2Choose enabled minSize methodFlag ser comp).2, ?_, ?_⟩
+        · rw [← h]; simp [Nat.add_comm]
+        · exact v2_roundtrip decompress max enabled minSize methodFlag ser comp hflag (by omega)
+
+/-- the pre-fix encoder emitted frames its own decoder refuses (witness: limit 4, a 6-byte
+    serialisation that "compresses" to 2 bytes) -/
+theorem v2_old_encoder_limit_witness :
+    ∃ f content, frameEncodeV2cOld 4 true 0 1 [1, 2, 3, 4, 5, 6] [9, 9] = .ok f ∧
+      f = be32 content.length ++ content ∧
+      v2Decode (fun _ => some [1, 2, 3, 4, 5, 6]) 4 content = .error .tooLarge :=
+  ⟨_, [1, 9, 9], rfl, by decide, by decide⟩
+
+/-- the compressed bytes are sent only when they are strictly shorter -/
+theorem v2_never_grows (enabled : Bool) (minSize methodFlag : Nat) (ser comp : List Nat) :
+    (v2Choose enabled minSize methodFlag ser comp).2.length ≤ ser.length := by
+  unfold v2Choose
+  split
+  · split
+    · simp only; omega
+    · simp
+  · simp
+
 /-! ### The pre-fix encoder does **not** satisfy the property (kept as a regression witness). -/
 theorem old_delta_not_inverse :
     deltaDecodeOld (deltaEncodeOld [5, 3, 9, 9, 1]) = [5, 5, 11, 11, 11] := by decide
